@@ -42,14 +42,14 @@ Definition exact_overlaps (to from : list kgrange) (res : list (list N)) : bool 
   forallb (fun i => list_eqb N.eqb (nth i res [])
                       (filter (fun j => overlaps (nth i to dfl) (nth (N.to_nat j) from dfl)) (nseq 0 (length from))))
           (seq 0 (length to)).
-(* every key group's old owner (every position of `from` that includes it) is handed to every new range including it *)
+(* every key group's old owner is handed to every new range including it: whenever to[i] and from[j] have a key
+   group below count in common, j is in res[i] (stated on the end points, so that count = 65535 stays cheap) *)
 Definition owner_handed (count : N) (to from : list kgrange) (res : list (list N)) : bool :=
-  forallb (fun kg =>
-     forallb (fun i => negb (includes_kg (nth i to dfl) kg) ||
-        forallb (fun j => negb (includes_kg (nth (N.to_nat j) from dfl) kg) || existsb (N.eqb j) (nth i res []))
-                (nseq 0 (length from)))
-       (seq 0 (length to)))
-    (nseq 0 (N.to_nat count)).
+  forallb (fun i =>
+     forallb (fun j => let t := nth i to dfl in let f := nth (N.to_nat j) from dfl in
+                negb (N.max (fst t) (fst f) <? N.min (N.min (snd t) (snd f)) count) || existsb (N.eqb j) (nth i res []))
+             (nseq 0 (length from)))
+    (seq 0 (length to)).
 (* nothing foreign: what is handed to i shares a key group with i (non-empty ranges) *)
 Definition nothing_foreign (to from : list kgrange) (res : list (list N)) : bool :=
   forallb (fun i =>
